@@ -386,6 +386,43 @@ def run(ctx):
     shared.rule_exit_mirrors_init(ctx, P, r)
     r.require_min(5)
 
+    # ---------------- R16h fields of a freshly malloc'ed descriptor are written before they are read
+    r = ctx.rule('R16h', 'backend init: a member of the malloc\'ed descriptor is read (freed, called, compared) only after it was stored on that path',
+                 'an error exit that frees desc->member before the member was ever assigned frees an indeterminate pointer (a stale one when the chunk is recycled)')
+    inits16 = set(cg.slot_functions('init').values()) | {'@isa_l_common_init'}
+    n16 = 0
+    for iname in sorted(inits16):
+        fi = P.fns.get(iname)
+        if fi is None or re.search(r'jerasure|shss|phazrio', fi.mod.src):
+            continue
+        for al in [i for i in fi.insts() if i.op == 'call' and i.callee == '@malloc' and i.res]:
+            A16, _ = derived_pointers(fi, [al.res])
+            cleared = [i for i in fi.insts() if i.op == 'call' and (i.callee or '').startswith('@llvm.memset') and strip_ptr_casts(fi, i.ops[0]) in (al.res,) ]
+            def fld(ptr):
+                root, steps = access_path(P, fi, ptr)
+                fl = fields_in_path(steps)
+                return tuple(fl) if fl and strip_ptr_casts(fi, root) in A16 | {al.res} or (fl and root in A16) else None
+            for ld in [i for i in fi.insts() if i.op == 'load' and i.ops[0] in A16]:
+                fp = fld(ld.ops[0])
+                if not fp:
+                    continue
+                n16 += 1
+                def writes(i_, fp=fp):
+                    if i_.op == 'store' and i_.ops[1] in A16 and fld(i_.ops[1]) == fp:
+                        return True
+                    return any(i_ is c_ for c_ in cleared)
+                esc = reaches_without(fi, al.bb, lambda i_: i_ is ld, writes, al.idx + 1)
+                inst = f'{iname}: read of {".".join(x[1] for x in fp)} at line {ld.line}'
+                if esc is None:
+                    r.ok(inst + ' follows a store on every path', func=fi.name, loc=ld.loc, trivial=True)
+                else:
+                    r.fail(inst, func=fi.name, sig=f'descriptor member {fp[-1][1]} read before it is written', loc=ld.loc,
+                           msg=f'{iname} reads {".".join(x[1] for x in fp)} of the descriptor it has just malloc\'ed on a path on which the member was never assigned: '
+                               'the value is whatever the heap chunk held (free() of it corrupts the heap)')
+    if not n16:
+        r.undecided('descriptor member reads in init', loc='src/backends', msg='no member of a malloc\'ed descriptor is read in any init')
+    r.require_min(5)
+
     # ---------------- R16e
     r = ctx.rule('R16e', 'single owner on failure: a callee that frees a parameter on its error path is not followed by a second free',
                  'double free / use after free on an error path no test takes')
